@@ -475,7 +475,6 @@ func (p *Prog) HelperCallees(helpers []string) map[string][]string {
 	return out
 }
 
-
 // boundTarget: mc is a method value of a concrete receiver (closure over a bound-method wrapper): the method.
 func boundTarget(mc *ssa.MakeClosure) *ssa.Function {
 	w, ok := mc.Fn.(*ssa.Function)
